@@ -279,6 +279,17 @@ def must_pass(res: TlcResult, what: str) -> TlcResult:
 # --------------------------------------------------------------------------
 # batched trace validation
 # --------------------------------------------------------------------------
+def _no_null(o):
+    """TLC's JSON reader has no null: spell it as the string "null" """
+    if o is None:
+        return "null"
+    if isinstance(o, dict):
+        return {k: _no_null(v) for k, v in o.items()}
+    if isinstance(o, (list, tuple)):
+        return [_no_null(v) for v in o]
+    return o
+
+
 def validate_batch(
     module: str,
     traces: list[dict],
@@ -319,7 +330,7 @@ def validate_batch(
         ix, chunk = ix_chunk
         d = newdir(f"batch{ix}")
         f = d / "traces.json"
-        f.write_text(json.dumps(chunk if common is None else {"common": common, "cases": chunk}))
+        f.write_text(json.dumps(_no_null(chunk if common is None else {"common": common, "cases": chunk})))
         r = tlc(module, cfg, env={"TRACE_FILE": str(f)}, workers=1, timeout=timeout, heap=heap, deque=deque, defs=defs, tag=f"{module}.b{ix}")
         return ix, chunk, r
 
